@@ -197,6 +197,25 @@ example : WTfields exTy exSchema exVal := by
   simp [exTy, exSchema, exVal, WTfields, WT, WTs, WTkvs, LeafWT, KeyTy, tagged, tagName, derefTy, isPtr, bitsOK,
     ITy.InRange, ITy.lo, ITy.hi, NoArrowTags, NamesDistinct, Fresh, GoFields.tags]
 
+/-- Histories: serialization has no state, so any number of values serialized one after the other
+(any types, any order of later decoding) each come back as `canon` of themselves — the round trip
+lifts pointwise to every list of calls. (The harness checks the implementation on such histories:
+all values serialized first, all byte strings decoded afterwards.) -/
+theorem roundtrip_history (calls : List (GoFields × AFields × SFields))
+    (h : ∀ x ∈ calls, WTfields x.1 x.2.1 x.2.2) :
+    ∀ x ∈ calls, ∃ cfs, encodeTop x.2.1 x.2.2 = .ok cfs ∧ decodeTop x.1 cfs = .ok (canonFields x.1 x.2.1 x.2.2) :=
+  fun x hx => roundtrip_struct x.1 x.2.1 x.2.2 (h x hx)
+
+/-- Dictionary-encoded strings (`enum`, `dict_string`), wire → Go: a slot decodes to the entry
+its OWN index selects, whatever else the dictionary holds and wherever that entry sits. -/
+theorem dict_selects_row_entry (t : GoTy) (es : List BStr) (i : Nat) (x : BStr)
+    (ht : derefTy t = .prim .str) (hx : es[i]? = some x) : decode t (.dict es i) = .ok (.str x) := by
+  simp [decode, ht, hx]
+
+example : decode (.ptr (.prim .str)) (.dict [['r', 'e', 'd'], ['g', 'r', 'e', 'e', 'n'], ['b', 'l', 'u', 'e']] 2)
+    = .ok (.str ['b', 'l', 'u', 'e']) := by
+  simp [decode, derefTy]
+
 /-! ## 3. The derived schema is the same on every call -/
 
 /-- Every entry of the memo table is what the uncached walk computes for its key. -/
